@@ -106,6 +106,22 @@ def segment_strategy(weights, macros, extra=0):
                 seg.append(["rg", a % 3, 0, 0])
                 seg.append(["get", 0])
             return seg
+        if m == 7:      # ONE process holds several grants on one side, retires one that is not its oldest (uses or withdraws
+            # it), presents the dead token again (only C07 executes "mis"), then uses the others
+            act = a % 3
+            dead_kind = 4 if b % 2 == 0 else 3          # index in C07's MIS: cancelled_token / used_token
+            if c % 2 == 0:
+                seg = [["rp", act, 0], ["rp", act, 0]] + ([["rp", act, 0]] if k == 3 else [])
+                seg.append(["cp", 1 + (b // 2) % 2] if dead_kind == 4 else ["put", 1 + (b // 2) % 2, 0, c % 3])
+                seg += [["mis", dead_kind, act, -1, 0], ["put", 0, 0, b % 3], ["rp", (act + 1) % 3, 0], ["put", 0, 0, 0]]
+                return seg
+            seg = []
+            for i in range(2 + k % 2):
+                seg += [["rp", (act + 1) % 3, 0], ["put", 0, 0, (b >> i) % 3]]
+            seg += [["adv", 7], ["rg", act, 0, 0], ["rg", act, 0, 0]]
+            seg.append(["cg", 1] if dead_kind == 4 else ["get", 1])
+            seg += [["mis", dead_kind, act, -1, 1], ["get", 0], ["rg", (act + 1) % 3, 0, 0], ["get", 0]]
+            return seg
         if m == 5:      # arrival while reservations are outstanding
             return [["rg", a % 3, 0, 0], ["rp", a % 3, 0], ["put", 0, 0, c % 3], ["adv", b % 8], ["rg", a % 3, 0, 0],
                     ["get", c % 2], ["get", 0]]
